@@ -92,6 +92,10 @@ type Path struct {
 	nchoice  int
 	lastPos  token.Pos
 	curFn    *ssa.Function
+
+	isTemplate   bool
+	cloneMemo    map[*Obj]*Obj
+	cloneMapMemo map[*MapObj]*MapObj
 	pools    map[*Obj][]Value
 	funcs    map[*ssa.Function]bool
 	stubs    map[string]bool
@@ -806,7 +810,106 @@ func (p *Path) symStrEq(x *SymStr, y StrV) *term.T {
 
 // ---------- globals & package init ----------
 
+// global returns the path's object for a package-level variable. Package
+// initialisers run once per worker on a template path; each exploring path
+// gets a lazily made private copy of the object graph reachable from the
+// globals it touches (identity between shared sub-objects is preserved by a
+// per-path memo).
 func (p *Path) global(g *ssa.Global) *Obj {
+	if p.isTemplate {
+		return p.globalTmpl(g)
+	}
+	if o, ok := p.globals[g]; ok {
+		return o
+	}
+	tp := p.W.template()
+	tp.steps = 0
+	to := tp.globalTmpl(g)
+	for s := range tp.stubs {
+		p.stubs[s] = true
+	}
+	o := p.cloneObj(to)
+	p.globals[g] = o
+	return o
+}
+
+func (p *Path) cloneObj(to *Obj) *Obj {
+	if to == nil {
+		return nil
+	}
+	if o, ok := p.cloneMemo[to]; ok {
+		return o
+	}
+	p.nextObj++
+	o := &Obj{ID: p.nextObj, Typ: to.Typ, Name: to.Name, Written: to.Written}
+	p.cloneMemo[to] = o
+	o.Val = p.cloneVal(to.Val)
+	return o
+}
+
+func (p *Path) cloneVal(v Value) Value {
+	switch x := v.(type) {
+	case *Ptr:
+		if x.Obj == nil {
+			return x
+		}
+		return &Ptr{Obj: p.cloneObj(x.Obj), Path: x.Path}
+	case *SliceV:
+		if x.Obj == nil {
+			return x
+		}
+		return &SliceV{Obj: p.cloneObj(x.Obj), Base: x.Base, Off: x.Off, Len: x.Len, Cap: x.Cap}
+	case *StructV:
+		n := &StructV{F: make([]Value, len(x.F))}
+		for i, f := range x.F {
+			n.F[i] = p.cloneVal(f)
+		}
+		return n
+	case *ArrayV:
+		n := &ArrayV{E: make([]Value, len(x.E))}
+		for i, e := range x.E {
+			n.E[i] = p.cloneVal(e)
+		}
+		return n
+	case *IfaceV:
+		if x.T == nil {
+			return x
+		}
+		return &IfaceV{T: x.T, V: p.cloneVal(x.V)}
+	case *FuncV:
+		if len(x.Bind) == 0 {
+			return x
+		}
+		n := &FuncV{Fn: x.Fn, Builtin: x.Builtin, Bind: make([]Value, len(x.Bind))}
+		for i, b := range x.Bind {
+			n.Bind[i] = p.cloneVal(b)
+		}
+		return n
+	case *MapV:
+		if x.M == nil {
+			return x
+		}
+		if m, ok := p.cloneMapMemo[x.M]; ok {
+			return &MapV{M: m}
+		}
+		p.nextObj++
+		m := &MapObj{ID: p.nextObj, KT: x.M.KT, VT: x.M.VT}
+		p.cloneMapMemo[x.M] = m
+		for _, e := range x.M.Entries {
+			m.Entries = append(m.Entries, &MapEntry{K: p.cloneVal(e.K), V: p.cloneVal(e.V)})
+		}
+		return &MapV{M: m}
+	case TupleV:
+		n := make(TupleV, len(x))
+		for i, e := range x {
+			n[i] = p.cloneVal(e)
+		}
+		return n
+	}
+	return v
+}
+
+func (p *Path) globalTmpl(g *ssa.Global) *Obj {
 	if o, ok := p.globals[g]; ok {
 		if why, bad := p.initAborted[g.Pkg]; bad && !o.Written && p.inInit == 0 {
 			p.unsupported("read of global %s whose package initialiser could not be interpreted completely (%s)", g, why)
